@@ -25,7 +25,7 @@ m = dict(version=1, setup_cmd='true', hooks=hooks,
          engines=[dict(name='pv', path='/verif/pv', serves_properties=sorted(CHECKS),
                        kind_free_text='static analysis: ast-based abstract interpreter of the numpy subset (symbolic shapes and indices, exact rational stencils), plus AST/CFG rule checkers; never imports or executes pyfvtool')],
          checks=[CHECKS[p] for p in ids if p in CHECKS],
-         notes='All checks parse /repo/src/pyfvtool with ast on every run; exit 2 = analysis error (construct outside the declared subset, vanished anchor, instance count below floor).',
+         notes='All checks parse /repo/src/pyfvtool with ast on every run; exit 2 = analysis error (construct outside the declared subset, vanished anchor, instance count below floor); exit 1 as soon as one unlisted violation is derived, even if other jobs could not be analysed. Index bound of the symbolic analyses: all cell counts N >= 8 per axis (generic and boundary-adjacent cells), plus concrete small grids with symbolic data (1..7 cells, mixed shapes; DESIGN.md 9.2/9.7); integer-dtype inputs are a separate pass in C03/C05/C10/C11.',
          not_applicable=[dict(property_id=p, reason=NA[p]) for p in ids if p in NA])
 json.dump(m, open('/verif/MANIFEST.json', 'w'), indent=1)
 print('claimed', sorted(CHECKS), 'n/a', sorted(NA))
